@@ -49,15 +49,15 @@ theorem root_lookups_always (o : Oracle) (t : List Stmt) (n : Name) :
 /-- Why the context is read *only* in frame prologues: whatever name the code generator visits in a frame (every `Name`
     load/store, `NSRef`, macro name, import target — `refOk` follows compiler.py), the analysis of that frame chain has given it a
     slot (`frame.symbols.ref(name)` cannot raise), so a load always compiles to a local slot and never to an ad-hoc context read.
-    Holds for the root frame and everything nested in it, for every template in which no set-block filter mentions a name. -/
-theorem refs_never_fail_root (t : List Stmt) (h : nfs t = true) : refOks [] (rootFrame t) t = true := by
+    Holds for the root frame and everything nested in it, for every template. -/
+theorem refs_never_fail_root (t : List Stmt) : refOks [] (rootFrame t) t = true := by
   unfold rootFrame
-  exact refOks_of t [] _ h (fun n hn => needss_have t [] _ n hn)
+  exact refOks_of t [] _ (fun n hn => needss_have t [] _ n hn)
 
 /-- the same for every block function (isolated frame with `self` / `super` parameters) -/
-theorem refs_never_fail_block (body : List Stmt) (h : nfs body = true) : refOks [] (blockFrame body) body = true := by
+theorem refs_never_fail_block (body : List Stmt) : refOks [] (blockFrame body) body = true := by
   unfold blockFrame
-  exact refOks_of body [] _ h (fun n hn => needss_have body [] _ n hn)
+  exact refOks_of body [] _ (fun n hn => needss_have body [] _ n hn)
 
 /-- one load site: a string it can hand to the loader is yielded, or `None` is yielded for the node -/
 theorem site_sound (dynv : Nat → List String) (k : RefKind) (te : TExpr) (s : String) :
@@ -150,11 +150,10 @@ def ex4 : List Stmt :=
   [.ite ["a"] [.assign [.store "x"] ["b"]] [] [],
    .for_ ["i"] ["xs"] [.macro_ "m" ["p"] ["x"] [.output ["p", "i", "q"]]] [] none false]
 
-example : nfs ex4 = true ∧ refOks [] (rootFrame ex4) ex4 = true := by decide
-/-- the hypothesis of `refs_never_fail_root` is needed: `{% set x | replace(a, 'b') %}…{% endset %}` visits `a` in the set
-    block's frame, whose analysis never saw it (compiler.py:1625 vs idtracking.py:188-190) — the real compiler raises
-    `AssertionError: Tried to resolve a name to a reference that was unknown to the frame ('a')` -/
-example : refOks [] (rootFrame [.assignBlock (.store "x") ["a"] [.output []]]) [.assignBlock (.store "x") ["a"] [.output []]] = false := by
-  decide
+example : refOks [] (rootFrame ex4) ex4 = true ∧ resolveSites ex4 = ["a", "b", "x", "xs", "q"] := by decide
+/-- `{% set x | replace(a, 'b') %}…{% endset %}`: the filter's names are analysed in the set block's frame
+    (idtracking.py:188-195; before /repo commit db02b7e they were not and `Symbols.ref('a')` raised AssertionError) -/
+example : refOkTemplate [.assignBlock (.store "x") ["a"] [.output []]] = true ∧
+    resolveSites [.assignBlock (.store "x") ["a"] [.output []]] = ["a"] := by decide
 
 end JinjaV.C32
